@@ -1,0 +1,16 @@
+//go:build verif
+
+package s3db
+
+import "github.com/jrhy/s3db/kv"
+
+// VerifS3, when set by a verification harness, may replace the object-store
+// client OpenKV is about to use (build tag verif only).
+var VerifS3 func(S3Options, kv.S3Interface) kv.S3Interface
+
+func verifS3(o S3Options, c kv.S3Interface) kv.S3Interface {
+	if VerifS3 != nil {
+		return VerifS3(o, c)
+	}
+	return c
+}
